@@ -94,7 +94,10 @@ def invert4rankTensor(c4):
     This is done by converting to 2nd rank, inverting, then converting back to 4th rank
     '''
     c2 = convert4To2rankTensor(c4)
-    return convert2To4rankTensor(np.linalg.inv(c2))
+    # The double contraction a_ijmn * b_mnkl counts each shear pair twice, so in 6x6 form it is a2 * W * b2 with W = diag(1,1,1,2,2,2)
+    # and the identity on symmetric tensors is diag(1,1,1,1/2,1/2,1/2) = W^-1, which gives b2 = W^-1 * a2^-1 * W^-1
+    wInv = np.array([1, 1, 1, 0.5, 0.5, 0.5])
+    return convert2To4rankTensor(wInv[:,np.newaxis] * np.linalg.inv(c2) * wInv[np.newaxis,:])
 
 def convertVecTo2rankTensor(v):
     '''
